@@ -10,7 +10,7 @@ NOFAULT = '{[kind |-> "none", slot |-> 0, when |-> ""]}'
 TEXTCC = '<<"crlf", "lf", "trailws", "dots", "eq", "from", "bdry", "len75", "len76", "len77", "long", "utf8", "bin", "nul", "empty", "oneline", "rand">>'
 BASE = dict(MAXP='2', MAXE='1', MAXA='1', ENCS='{"qp", "b64", "8bit"}', PENCS='{""}', FENCS='{""}',
             CCS=TEXTCC, PRODS='<<"string", "writer", "chunk3">>', SRCS='<<"seeker", "reader", "file", "iofs">>',
-            ROTS='{0}', BOUNDARIES='{""}', DELS='{0}', HDRS='{<<>>}', PDESCS='{""}', FDESCS='{""}', FNAMES='{""}', FCIDS='{""}', OPSEQS='{<<"WriteTo">>}', FAULTS=NOFAULT)
+            ROTS='{0}', BOUNDARIES='{""}', DELS='{0}', HDRS='{<<>>}', PDESCS='{""}', FDESCS='{""}', FNAMES='{""}', FCIDS='{""}', OPSEQS='{<<"WriteTo">>}', FAULTS=NOFAULT, ROUNDTRIP='{FALSE}')
 
 
 def cfg(**kw):
@@ -104,6 +104,22 @@ STAGES.update({
                                                         SRCS='<<"seeker", "chunk1", "chunk3", "chunk57", "reader", "chunk7">>')),
             ('part-headers', 'MimeBuild', cfg(MAXP='2', MAXE='1', MAXA='1', ENCS='{"qp", "b64"}', CCS='<<"crlf">>', PDESCS='{"", "plain", "long", "utf8", "blanks"}',
                                               FDESCS='{"", "long", "utf8", "blanks"}', FNAMES='{"", "long", "utf8", "dotted", "blanks"}')),
+        ],
+    },
+    'C10': {
+        'quick': [
+            ('shapes', 'MimeBuild', cfg(MAXP='2', MAXE='1', MAXA='2', ENCS='{"qp", "b64", "8bit"}', PENCS='{"", "b64"}', ROUNDTRIP='{TRUE}',
+                                        CCS='<<"crlf", "utf8", "lf", "dots", "eq", "size300", "len76", "bin">>', ROTS='{0, 3}')),
+            ('headers-and-names', 'MimeBuild', cfg(MAXP='1', MAXE='1', MAXA='1', ENCS='{"qp"}', ROUNDTRIP='{TRUE}', CCS='<<"crlf", "utf8">>',
+                                                   HDRS=hdrsets(["subject", "fromname", "toname", "cc"], ["plain", "utf8", "long", "quotes"]),
+                                                   FNAMES='{"", "utf8", "semi", "blanks", "dotted"}')),
+        ],
+        'thorough': [
+            ('shapes', 'MimeBuild', cfg(MAXP='3', MAXE='2', MAXA='2', ENCS='{"qp", "b64", "8bit"}', PENCS='{"", "b64", "qp", "8bit"}', FENCS='{"", "8bit"}',
+                                        ROUNDTRIP='{TRUE}', CCS='<<"crlf", "utf8", "lf", "dots", "eq", "size300", "len76", "bin", "trailws", "from">>', ROTS='0..9')),
+            ('headers-and-names', 'MimeBuild', cfg(MAXP='2', MAXE='1', MAXA='2', ENCS='{"qp", "b64"}', ROUNDTRIP='{TRUE}', CCS='<<"crlf", "utf8">>',
+                                                   HDRS=hdrsets(["subject", "fromname", "toname", "cc"], ["plain", "utf8", "long", "quotes", "blanks", "token300"]),
+                                                   FNAMES='{"", "utf8", "semi", "blanks", "dotted", "long"}')),
         ],
     },
     'C02': {
@@ -326,7 +342,29 @@ def mut_early_end(evs):
     return evs[:i + 1] + [x] + evs[i + 1:]
 
 
+def mut_rt(evs, what):
+    i = _find(evs, lambda e: e['ev'] == 'rt' and e['what'] == what and e['eq'])
+    if i < 0:
+        return None
+    evs[i]['eq'] = False
+    return evs
+
+
+def mut_second_leaf(evs):
+    j = _find(evs, lambda e: e['ev'] == 'render' and e.get('second'))
+    i = _find(evs, lambda e: e['ev'] == 'leaf' and e['eq'], j) if j >= 0 else -1
+    if i < 0:
+        return None
+    evs[i]['eq'] = False
+    return evs
+
+
 SELFTESTS = {
+    'C10': [('parsed subject differs', lambda evs: mut_rt(evs, 'subject'), 'C10_subject'),
+            ('parsed part differs', lambda evs: mut_rt(evs, 'part'), 'C10_part'),
+            ('parsed attachment differs', lambda evs: mut_rt(evs, 'attbytes'), 'C10_attbytes'),
+            ('extra part after parsing', lambda evs: mut_rt(evs, 'partcount'), 'C10_partcount'),
+            ('content of the second rendering differs', mut_second_leaf, 'C10_R2_C01_ContentEqual')],
     'C12': [('success despite a fault', lambda evs: _mut_out(evs, lambda e: e['faulted'] and e['err'] and not e['panic'], err=False), 'C12_ErrorOnFault'),
             ('wrong count after a fault', lambda evs: _mut_out(evs, lambda e: e['faulted'] and not e['panic'] and e['n'] == e['accepted'], n=1 << 20), 'C12_CountOnFault'),
             ('panic', lambda evs: _mut_out(evs, lambda e: e['faulted'] and not e['panic'], panic=True), 'C12_NoPanic'),
@@ -353,5 +391,5 @@ SELFTESTS = {
             ('outer delimiter inside inner multipart', mut_inner_delim, 'C01_BoundaryNesting')],
 }
 VACUITY = {'C01': ['lines', 'leaves', 'trees', 'multiparts'], 'C12': ['faulted', 'outs'], 'C11': ['rerenders'],
-           'C18': ['lines', 'hdrs'], 'C02': ['lines', 'hdrs']}
-LEVEL = {'C01': 'exploration', 'C02': 'exploration', 'C11': 'model_checking', 'C12': 'fault_enumeration', 'C18': 'exploration'}
+           'C18': ['lines', 'hdrs'], 'C02': ['lines', 'hdrs'], 'C10': ['rts', 'lines', 'leaves']}
+LEVEL = {'C10': 'exploration', 'C01': 'exploration', 'C02': 'exploration', 'C11': 'model_checking', 'C12': 'fault_enumeration', 'C18': 'exploration'}
